@@ -302,6 +302,7 @@ theorem children_slotGet {h : Heap} (hg : GoodDicts h) {r : Ref} {n : Node} (hn 
     | str s => rfl
     | int i => rfl
     | idx i => rfl
+    | obj i => rfl
     | lit id v => exact absurd rfl (hnl _ hmem id v)
   | list rs =>
     obtain ⟨i, hi, rfl⟩ := mem_seqChildren.mp hm
